@@ -102,6 +102,7 @@ type runner struct {
 	inconc  string
 	facts   map[string]bool
 	trace   []string
+	hung    bool // a call into the cache never returned: the cache must not be touched (closed) any more
 }
 
 func (r *runner) fail(sig, msg string) { r.fails = append(r.fails, failure{sig, msg}) }
@@ -220,7 +221,27 @@ func (r *runner) step(op Op) {
 			x = r.left + op.N%(r.right-r.left+6)
 		}
 		valid := r.ch.C.IsValidOffset(r.off(x))
-		rd, err := r.ch.C.NewReader(r.off(x))
+		// opening a reader takes microseconds; it is given 20 s. A call that has not returned then, with nothing else running in
+		// this cache, waits for a lock it will never get
+		type opened struct {
+			rd  syncer.ChannelReader
+			err error
+		}
+		och := make(chan opened, 1)
+		go func() {
+			rd, err := r.ch.C.NewReader(r.off(x))
+			och <- opened{rd, err}
+		}()
+		var rd syncer.ChannelReader
+		var err error
+		select {
+		case o := <-och:
+			rd, err = o.rd, o.err
+		case <-time.After(20 * time.Second):
+			r.fail("reader-open-never-returns", fmt.Sprintf("NewReader(%d) has not returned after 20 s on an idle cache (range [%d,%d], verifyCrc=%v)", x, r.left, r.right, r.c.VerifyCrc))
+			r.hung = true
+			return
+		}
 		r.facts["open"] = true
 		if err != nil {
 			if valid {
@@ -348,6 +369,9 @@ func run(c Case) (fails []failure, inconc string, facts map[string]bool) {
 	r := &runner{c: c, facts: map[string]bool{}}
 	r.ch = cache.Open(c.Disk, dir, c.LogSize, c.MaxSize)
 	defer func() {
+		if r.hung {
+			return // closing would block on the same lock
+		}
 		for _, p := range r.pumps {
 			if p.open {
 				p.p.Close()
@@ -357,6 +381,12 @@ func run(c Case) (fails []failure, inconc string, facts map[string]bool) {
 	}()
 	for i, op := range c.Ops {
 		r.step(op)
+		if r.hung {
+			for k := range r.fails {
+				r.fails[k].msg = fmt.Sprintf("at op %d %+v: %s", i, op, r.fails[k].msg)
+			}
+			return r.fails, "", r.facts
+		}
 		if r.inconc != "" {
 			return r.fails, fmt.Sprintf("op %d %+v: %s", i, op, r.inconc), r.facts
 		}
